@@ -7,8 +7,8 @@ WINDOW mechanism.  The code under test walks the 16 bits of the register list an
 symbolic, so a fully symbolic list costs 65536 paths per encoding.  Every diagram below therefore spells the
 register list as sixteen one-bit fields ``r15:1 r14:1 ... r0:1`` (Thumb P/M bits are named r15/r14, the 8-bit
 Thumb lists r7..r0).  The ``fix`` option of ``vf.step.mk_step`` can then pin any subset of list bits while the
-others stay symbolic.  ``window(sym, pattern)`` builds such a ``fix`` dictionary and ``WINDOWS`` names the
-standard windows that were run (see reports/blk.md).
+others stay symbolic.  ``window(sym, pattern)`` builds such a ``fix`` dictionary; ``PLAN`` lists the standard
+windows and ``python3-vt -m spec.isa_blk`` runs them (see reports/blk.md).
 
 Formulation.  The operation pseudocode transfers the registers of the list in ascending register order to
 ascending word addresses.  It is stated here per register for loads (register i reads the word at
@@ -17,6 +17,12 @@ the j-th lowest register of the list and is written iff j < BitCount(registers))
 loop with the running ``address`` variable eliminated.  All words of one block transfer have the same
 alignment (start mod 4), so the alignment fault of MemA is the fault of the first access, at ``start``.
 """
+if __name__ == '__main__':  # python3-vt -m spec.isa_blk ...: run the standard plan (see main() at the end)
+    import sys as _sys
+    from spec import isa_blk as _self
+    _self.main(_sys.argv)
+    _sys.exit(0)
+
 import z3
 
 from . import pseudo as P
@@ -43,13 +49,73 @@ def window(sym, pattern=0, lo=0, hi=15):
     return {'r%d' % i: (pattern >> i) & 1 for i in range(lo, hi + 1) if not (sym >> i) & 1}
 
 
-# name -> (symbolic mask, pinned pattern).  Every list bit is symbolic in at least one window; PC, LR, SP and
-# (with Rn symbolic) base-in-list are covered in LO/HI/TOP with both values of the pinned high/low bits.
-WINDOWS = {
-    'LO0': (0x00FF, 0x0000), 'LO1': (0x00FF, 0xA500), 'LO2': (0x00FF, 0x4000), 'LO3': (0x00FF, 0x8000),
-    'HI0': (0xFF00, 0x0000), 'HI1': (0xFF00, 0x00A5), 'HI2': (0xFF00, 0x0001),
-    'TOP': (0xE007, 0x0550), 'MID': (0x0FF0, 0x8001), 'ALL1': (0x0000, 0xFFFF),
+# The standard units: per kind of encoding a list of (label, symbolic list mask, pinned pattern, Rn) where Rn is
+# a register number (pinned) or None (Rn symbolic).  A symbolic Rn multiplies the solver cost by ~10 (the base
+# address becomes a 16-way selection inside every memory index), so it is combined with small windows only.
+# Every list bit is symbolic in at least one window; PC / LR / SP in the list, the base register inside the
+# symbolic window (both base-in-list and base-not-in-list), base = lowest / not lowest register of the list,
+# the full list, and Rn symbolic are all covered.  Masks are intersected with the list bits an encoding has.
+PLAN = {
+    # ARM, 16-bit list, Rn: LDM/LDMDA/LDMDB/LDMIB, STM/STMDA/STMDB/STMIB
+    'l16n': [('LO', 0x003F, 0x0000, 2), ('LOP', 0x003F, 0xA500, 12), ('MID', 0x0FC0, 0x0001, 0),
+             ('HI', 0xF000, 0x0012, 13), ('TOP', 0xE007, 0x0550, 14), ('ALL', 0x0000, 0xFFFF, None),
+             ('ALL15', 0x0000, 0x7FFF, None), ('SYMRN', 0x8003, 0x0010, None)],
+    # ARM, list + Rn + P/U symbolic: LDM (user registers), LDM (exception return), STM (user registers)
+    'lpun': [('LO', 0x000F, 0x0000, 2), ('LOP', 0x000F, 0xA500, 12), ('MID', 0x0F00, 0x0001, 0),
+             ('HI', 0xF000, 0x0012, 13), ('ALL', 0x0000, 0xFFFF, None), ('SYMRN', 0x0003, 0x4010, None)],
+    # Thumb-2, list bits 15,14,12..0 (LDM) / 14,12..0 (STM), Rn, ITSTATE symbolic
+    't32n': [('LO', 0x003F, 0x0000, 2), ('LOP', 0x001F, 0x8500, 12), ('MID', 0x0FC0, 0x0001, 0),
+             ('HI', 0xD000, 0x0012, 12), ('TOP', 0xC007, 0x0550, 14), ('SP', 0x4003, 0x0100, 13), ('ALLP', 0x0000, 0x9FFF, None),
+             ('ALLM', 0x0000, 0x5FFF, None), ('SYMRN', 0xC003, 0x0010, None)],
+    # Thumb 16-bit, 8-bit list, Rn:3
+    't16n': [('ALL8', 0x00FF, 0x0000, 1), ('SYMRN', 0x000F, 0x00A0, None)],
+    # PUSH / POP, 16-bit list (A1)
+    'pp16': [('LO8', 0x00FF, 0x4000, None), ('LO8P', 0x00FF, 0x8000, None), ('HI8', 0xFF00, 0x0001, None),
+             ('ALL', 0x0000, 0xFFFF, None), ('ALL13', 0x0000, 0xDFFF, None)],
+    # PUSH T2 / POP T2
+    'pp32': [('LO8', 0x00FF, 0x4000, None), ('LO8P', 0x00FF, 0x8000, None), ('HI', 0xDF00, 0x0001, None),
+             ('ALLP', 0x0000, 0x9FFF, None), ('ALLM', 0x0000, 0x5FFF, None)],
+    # PUSH T1 / POP T1: all nine list bits symbolic
+    'pp16t': [('ALL9', 0xC0FF, 0x0000, None)],
+    # no register list (or a single register): everything symbolic
+    'single': [('SYM', 0xFFFF, 0x0000, None)],
 }
+
+KIND = {}
+for _k, _names in {
+        'l16n': 'LdmArmA1 LdmdaA1 LdmdbA1 LdmibA1 StmA1 StmdaA1 StmdbA1 StmibA1',
+        'lpun': 'LdmUserRegistersA1 LdmExceptionReturnA1 StmUserRegistersA1',
+        't32n': 'LdmThumbT2 LdmdbT1 StmT2 StmdbT1', 't16n': 'LdmThumbT1 StmT1',
+        'pp16': 'PushA1 PopArmA1', 'pp32': 'PushT2 PopThumbT2', 'pp16t': 'PushT1 PopThumbT1',
+        'single': 'PushA2 PushT3 PopArmA2 PopThumbT3 SrsArmA1 SrsThumbT1 SrsThumbT2 RfeA1 RfeT1 RfeT2'}.items():
+    for _n in _names.split():
+        KIND[_n] = _k
+
+# option variants run on top of the default machine (ARMv6: SCTLR.U = SCTLR.A = 0, little-endian data)
+VARIANTS = {
+    'std': {},
+    'align': {'sym_sys': {'sctlr': 0x400002}},  # SCTLR.U and SCTLR.A symbolic (alignment faults on ARMv6)
+    'be': {'e_sym': True},                      # CPSR.E symbolic
+}
+
+
+def units(name, arch, variant='std', labels=None):
+    """[(unit label, mk_step options)] of the standard plan for one encoding"""
+    from .isa import ISA
+    E = ISA[name]
+    have = {n for k, n, w, v in E.items if k == 'f'}
+    out = []
+    for label, sym, pat, rn in PLAN[KIND[name]]:
+        if labels and label not in labels:
+            continue
+        fix = {k: v for k, v in window(sym, pat).items() if k in have}
+        if rn is not None and 'Rn' in have:
+            fix['Rn'] = rn
+        opts = dict(VARIANTS[variant], enc=name, arch=arch, tables=['isa_blk'])
+        if fix:
+            opts['fix'] = fix
+        out.append(('step/%s/v%d/%s/%s' % (name, arch, variant, label), opts))
+    return out
 
 
 def reglist(f):
@@ -111,35 +177,70 @@ def rd_word(S, addr, start=None):
     return z3.If(z3.And(S._legacy_align(), unal), down, direct)
 
 
+def known_bits(regs):
+    """per list bit: 0 / 1 when the bit is a constant of the diagram instance (pinned by a window), else None.
+    Only used to prune cases that cannot occur (constant propagation); with a fully symbolic list nothing is
+    pruned."""
+    out = []
+    for i in range(16):
+        t = z3.simplify(bits(regs, i, i))
+        out.append(t.as_long() if z3.is_bv_value(t) else None)
+    return out
+
+
+def below_ranges(kb):
+    """[(min, max)] of BitCount(regs<i-1:0>) for i = 0..16 (entry 16: of BitCount(regs))"""
+    lo = hi = 0
+    out = []
+    for i in range(16):
+        out.append((lo, hi))
+        lo += 1 if kb[i] == 1 else 0
+        hi += 0 if kb[i] == 0 else 1
+    out.append((lo, hi))
+    return out
+
+
 def load_words(S, regs, start):
     """data[i] = MemA[start + 4*BitCount(regs<i-1:0>), 4] (value when no fault), stated through the 16 word
     slots start + 4*j so that every memory read has a constant offset from start"""
     below, total = counts(regs)
-    slot = [rd_word(S, start + 4 * j, start) for j in range(16)]
+    rng = below_ranges(known_bits(regs))
+    slot = {}
     data = []
     for i in range(16):
-        v = slot[15]
-        for j in range(14, -1, -1):
+        lo, hi = rng[i]
+        for j in range(lo, hi + 1):
+            if j not in slot and j < 16:
+                slot[j] = rd_word(S, start + 4 * j, start)
+        hi = min(hi, 15)
+        v = slot[hi]
+        for j in range(hi - 1, lo - 1, -1):
             v = z3.If(below[i] == j, slot[j], v)
-        data.append(z3.simplify(v))
+        data.append(v)
     return data
 
 
 def store_words(S, regs, start, values, ok):
     """for every register i of the list in ascending order: MemA[address,4] = values[i]; address += 4.
-    Stated per slot: slot j receives the j-th lowest register of the list and is written iff j < BitCount."""
+    Stated per slot: slot j (the word at start + 4*j) receives the j-th lowest register of the list and is
+    written iff j < BitCount(registers); an unwritten slot keeps its old contents."""
     below, total = counts(regs)
+    kb = known_bits(regs)
+    rng = below_ranges(kb)
+    tmin, tmax = rng[16]
     S0 = S.copy()
-    for j in range(16):
+    legacy_unal = z3.And(S._legacy_align(), bits(start, 1, 0) != 0) if S.arch < 7 else None
+    for j in range(min(tmax, 16)):
         a = start + 4 * j
-        v = values[15]
-        for i in range(14, -1, -1):
+        cands = [i for i in range(16) if kb[i] != 0 and rng[i][0] <= j <= rng[i][1]]
+        v = values[cands[-1]]
+        for i in reversed(cands[:-1]):
             v = z3.If(z3.And(bit(regs, i), below[i] == j), values[i], v)
-        written = z3.simplify(z3.And(ok, z3.UGT(total, j)))
-        if z3.is_false(written):
-            continue
-        new = z3.If(written, v, S0.mem_a_get(a, 4))
-        S.mem_a_set(a, 4, new)
+        written = ok if j < tmin else z3.And(ok, z3.UGT(total, j))
+        new = z3.If(written, v, rd_word(S0, a, start))
+        # MemA write: at a when a is word aligned, at Align(a,4) in the ARMv6 legacy alignment model
+        wa = a if legacy_unal is None else z3.If(legacy_unal, S._align(a, 4), a)
+        S._write_bytes(wa, 4, S._endian(new, 4))
 
 
 def pc_load(S, guard, value, kind='load'):
@@ -427,10 +528,21 @@ Enc('StmUserRegistersA1', 'A', 'cond 100 P U 1 (0) 0 Rn ' + RL(), family=FAM,
     unpred=lambda f, S: z3.Or(f['Rn'] == 15, reglist(f) == 0, usr_or_sys(S)), sem=stm_user_sem)
 
 
+_restored = {}
+
+
+def restored_it(S0):
+    """isa.step 'it_restore' hook (Thumb exception returns): the ITSTATE loaded by the exception return is not
+    advanced.  The hook only receives the pre-state, so the sem function (which isa.step runs first) leaves
+    the restored value here."""
+    return _restored['it']
+
+
 def excp_return(S, ok, spsr_value, new_pc):
     """CPSRWriteByInstr(spsr_value, '1111', TRUE); if Hyp && J && T then UNPREDICTABLE else BranchWritePC(new_pc)"""
     T = S.copy()
     T.cpsr_write_by_instr(spsr_value, 0b1111, True)
+    _restored['it'] = z3.If(ok, T.it(), S.it())
     j, t = T.cbit(J_), T.cbit(T_)
     T.unpredictable(z3.And(T.mode() == MODE['hyp'], j, t))
     # BranchWritePC with the restored instruction set state: ARM -> word aligned; Thumb/ThumbEE -> halfword
@@ -522,9 +634,81 @@ Enc('RfeA1', 'A', '1111 100 P U 0 W 1 Rn (0)(0)(0)(0) (1)(0)(1)(0) (0)(0)(0)(0) 
     sem=rfe_sem(lambda f: f['U'] == 1, lambda f: f['P'] == f['U']))
 
 Enc('RfeT1', 'T32', '11101 00 000 W 1 Rn (1)(1)(0)(0) (0)(0)(0)(0) (0)(0)(0)(0) (0)(0)(0)(0)', family=FAM,
-    undefined=lambda f, S: hyp(S), unpred=rfe_unpred,
+    undefined=lambda f, S: hyp(S), unpred=rfe_unpred, attrs={'it_restore': restored_it},
     sem=rfe_sem(lambda f: z3.BoolVal(False), lambda f: z3.BoolVal(False)))
 
 Enc('RfeT2', 'T32', '11101 00 110 W 1 Rn (1)(1)(0)(0) (0)(0)(0)(0) (0)(0)(0)(0) (0)(0)(0)(0)', family=FAM,
-    undefined=lambda f, S: hyp(S), unpred=rfe_unpred,
-    sem=rfe_sem(lambda f: z3.BoolVal(False) if False else z3.BoolVal(True), lambda f: z3.BoolVal(False)))
+    undefined=lambda f, S: hyp(S), unpred=rfe_unpred, attrs={'it_restore': restored_it},
+    sem=rfe_sem(lambda f: z3.BoolVal(True), lambda f: z3.BoolVal(False)))
+
+
+# ---------------------------------------------------------------------------
+# runner for the standard plan:
+#   PYTHONPATH=/repo:/verif python3-vt -m spec.isa_blk ENC[,ENC...]|all ARCH [variant] [procs] [label,label]
+# (VERIF_REPO selects the repository checkout, as for tools/try_enc.py)
+# ---------------------------------------------------------------------------
+
+def main(argv):
+    import json
+    import os
+    import sys
+    import time
+    sys.path[:0] = [os.environ.get('VERIF_REPO', '/repo')]
+    from vf import runner
+    from vf.runner import UnitSpec
+    names = sorted(KIND) if argv[1] == 'all' else argv[1].split(',')
+    arch = int(argv[2]) if len(argv) > 2 else 6
+    variant = argv[3] if len(argv) > 3 else 'std'
+    procs = int(argv[4]) if len(argv) > 4 else 4
+    labels = set(argv[5].split(',')) if len(argv) > 5 else None
+    specs = []
+    for n in names:
+        for uname, opts in units(n, arch, variant, labels):
+            specs.append(UnitSpec(uname, 'vf.step', 'mk_step', opts, max_seconds=int(os.environ.get('BLK_MAX_S', 1500))))
+    out = os.environ.get('BLK_OUT')
+    t0 = time.time()
+    bad = 0
+    res = []
+
+    def report(d):
+        nonlocal bad
+        res.append(d)
+        verdict = 'PASS'
+        if d.get('harness_error'):
+            verdict = 'HARNESS-ERROR'
+        elif d['failures']:
+            verdict = 'FAIL'
+        elif d['inconclusive']:
+            verdict = 'INC'
+        bad += verdict != 'PASS'
+        print('%-13s %s paths %d obl %d dis %d q %d solver %.0f wall %.0f %s' % (
+            verdict, d['name'], d['paths'], d['obligations'], d['discharged'], d['queries'], d['solver_s'],
+            d['wall_s'], d['outcomes']), flush=True)
+        for i, fl in enumerate(d['failures'][:3]):
+            path = runner.write_replay('TRY', d['spec'], fl, i)
+            rep, text = runner.replay_file(path)
+            brief = {k: v for k, v in fl['inputs'].items() if not k.startswith(('R_', 'spsr_', 'elr_', 'mem'))}
+            print('   FAIL reproduced=%s %s %s %s' % (rep, fl['claims'][:6], json.dumps(brief)[:400], path))
+        for inc in d['inconclusive'][:3]:
+            print('   INC', str(inc)[:400])
+        if d.get('harness_error'):
+            print(d['harness_error'][-1500:])
+        if out:
+            with open(out, 'a') as fh:
+                fh.write(json.dumps({'name': d['name'], 'verdict': verdict, 'paths': d['paths'],
+                                     'obligations': d['obligations'], 'discharged': d['discharged'],
+                                     'wall_s': d['wall_s'], 'repo': os.environ.get('VERIF_REPO', '/repo'),
+                                     'claims': [fl['claims'][:4] for fl in d['failures'][:3]],
+                                     'inconclusive': [str(i)[:200] for i in d['inconclusive'][:3]]}) + '\n')
+    runner._init_pool(None)
+    if procs <= 1 or len(specs) == 1:
+        for sp in specs:
+            report(runner._worker(sp))
+    else:
+        import multiprocessing as mp
+        with mp.get_context('fork').Pool(procs, initializer=runner._init_pool, initargs=(None,),
+                                         maxtasksperchild=4) as pool:
+            for d in pool.imap_unordered(runner._worker, specs, chunksize=1):
+                report(d)
+    print('units %d not-pass %d total %.0fs' % (len(res), bad, time.time() - t0))
+
